@@ -17,7 +17,7 @@ from rules.queue import field_of_receiver
 RESHAPE = ("reserve", "reserve_exact", "try_reserve", "try_reserve_exact", "extend_from_slice", "extend", "extend_from_within",
            "push", "resize", "resize_with", "clear", "truncate", "append", "insert", "remove", "shrink_to_fit", "shrink_to",
            "drain", "set_len", "split_off", "retain", "retain_mut", "dedup", "dedup_by", "dedup_by_key", "swap_remove", "pop")
-VIEWSRC = ("as_ptr", "as_mut_ptr", "as_slice", "as_mut_slice", "deref", "deref_mut")
+VIEWSRC = ("as_ptr", "as_mut_ptr", "as_slice", "as_mut_slice", "deref", "deref_mut", "index", "index_mut", "borrow", "as_ref")
 
 
 def _field_elem(struct_path, field):
